@@ -43,29 +43,29 @@ def escChar (c : Char) : Str :=
 
 def quote (s : Str) : Str := '"' :: s.flatMap escChar ++ ['"']
 
-/-- `'\n' + ' ' * (4 * level)` -/
-def nl (lvl : Nat) : Str := '\n' :: List.replicate (4 * lvl) ' '
+/-- `'\n' + ' ' * (indent * level)` -/
+def nl (ind lvl : Nat) : Str := '\n' :: List.replicate (ind * lvl) ' '
 
 mutual
   /-- the text of a value at nesting level `lvl` -/
-  def ser (lvl : Nat) : JV → Str
+  def ser (ind lvl : Nat) : JV → Str
     | .str s => quote s
     | .int k => k.repr.toList
     | .arr [] => ['[', ']']
-    | .arr (x :: xs) => '[' :: nl (lvl + 1) ++ ser (lvl + 1) x ++ serItems (lvl + 1) xs ++ nl lvl ++ [']']
+    | .arr (x :: xs) => '[' :: nl ind (lvl + 1) ++ ser ind (lvl + 1) x ++ serItems ind (lvl + 1) xs ++ nl ind lvl ++ [']']
     | .obj [] => ['{', '}']
     | .obj ((k, v) :: kvs) =>
-      '{' :: nl (lvl + 1) ++ quote k ++ [':', ' '] ++ ser (lvl + 1) v ++ serMembers (lvl + 1) kvs ++ nl lvl ++ ['}']
-  def serItems (lvl : Nat) : List JV → Str
+      '{' :: nl ind (lvl + 1) ++ quote k ++ [':', ' '] ++ ser ind (lvl + 1) v ++ serMembers ind (lvl + 1) kvs ++ nl ind lvl ++ ['}']
+  def serItems (ind lvl : Nat) : List JV → Str
     | [] => []
-    | x :: xs => ',' :: nl lvl ++ ser lvl x ++ serItems lvl xs
-  def serMembers (lvl : Nat) : List (Str × JV) → Str
+    | x :: xs => ',' :: nl ind lvl ++ ser ind lvl x ++ serItems ind lvl xs
+  def serMembers (ind lvl : Nat) : List (Str × JV) → Str
     | [] => []
-    | (k, v) :: kvs => ',' :: nl lvl ++ quote k ++ [':', ' '] ++ ser lvl v ++ serMembers lvl kvs
+    | (k, v) :: kvs => ',' :: nl ind lvl ++ quote k ++ [':', ' '] ++ ser ind lvl v ++ serMembers ind lvl kvs
 end
 
-/-- `json.dump(v, f, indent=4)` -/
-def dumps (v : JV) : Str := ser 0 v
+/-- `json.dump(v, f, indent=ind)` (the library uses `indent=4`) -/
+def dumps (ind : Nat) (v : JV) : Str := ser ind 0 v
 
 -- ---------------------------------------------------------------- bracket / quote scanner
 
